@@ -8,7 +8,8 @@
 (*                  of passes on one program that ran without error         *)
 (* kind "flags"  : [a, b: [cls, prog], eq] - parser flag vs explicit pass   *)
 (* kind "shared" : [start: Prog, calls: Seq([op, snap_eq, snap_same_repr,   *)
-(*                  same_as_fresh])] - every call applied to one shared     *)
+(*                  snap_same_graph, same_as_fresh])] - every call applied  *)
+(*                  to one shared                                            *)
 (*                  object (Chain = FALSE)                                  *)
 (***************************************************************************)
 EXTENDS PassClauses, Json, IOUtils
@@ -71,6 +72,8 @@ SharedFrom(c, j) ==
   IF j > Len(c.calls) THEN {}
   ELSE LET call == c.calls[j] IN
        F("input_unchanged", ~call.snap_eq \/ ~call.snap_same_repr \/ call.snap # c.start)
+       \* everything reachable from the shared object (attribute names and values of every object, generic traversal)
+       \cup F("input_graph_unchanged", ~call.snap_same_graph)
        \cup F("same_as_fresh", ~call.same_as_fresh)
        \cup SharedFrom(c, j + 1)
 
